@@ -23,6 +23,34 @@ let do_tt (t : string list) : string =
   let res = run_reqs (table []) reqs in
   String.concat " " (List.map (function None -> "U" | Some s -> string_of_z s) res)
 
+(* go <side> <kw> <value> ... *)
+let do_go (t : string list) : string =
+  match t with
+  | side :: rest ->
+    let rec parse = function
+      | "infinite" :: r -> (Kinfinite, z_of_int 0) :: parse r
+      | k :: v :: r ->
+        let kw = (match k with "binc" -> Kbinc | "winc" -> Kwinc | "btime" -> Kbtime | "wtime" -> Kwtime
+                             | "movestogo" -> Kmovestogo | "movetime" -> Kmovetime | "depth" -> Kdepth
+                             | _ -> failwith ("BADKW " ^ k)) in
+        (kw, z_of_string v) :: parse r
+      | [] -> []
+      | [k] -> failwith ("BADKW " ^ k) in
+    (match parse_go (side = "1") (parse rest) with
+     | None -> "NOSEARCH"
+     | Some (d, mt) -> string_of_z d ^ " " ^ string_of_z mt)
+  | [] -> "BADREQ"
+
+(* att <sq> <occ>: the specification's attack sets (Spec.Rays), which C15 proves equal to the table model *)
+let do_att (t : string list) : string =
+  match t with
+  | [sq; occ] ->
+    let s = n_of_string sq and o = n_of_hex occ in
+    let r = slide rook_dirs s o and b = slide bishop_dirs s o in
+    String.concat " " (List.map hex_of_n
+      [r; b; N.coq_lor r b; leaper knight_offs s; leaper king_offs s; leaper wpawn_offs s; leaper bpawn_offs s])
+  | _ -> "BADREQ"
+
 let () =
   try
     while true do
@@ -32,6 +60,8 @@ let () =
        | [] -> ()
        | "tt" :: r -> print_endline (do_tt r)
        | "ttmon" :: r -> print_endline (do_ttmon r)
+       | "go" :: r -> print_endline (do_go r)
+       | "att" :: r -> print_endline (do_att r)
        | x :: _ -> print_endline ("BADREQ " ^ x))
     done
   with End_of_file -> ()
